@@ -109,7 +109,7 @@ def install():
 def run_shard(ctx):
     install()
     rng = ctx.rng
-    n = ctx.share({"quick": 6000, "thorough": 150000}[ctx.tier])
+    n = ctx.share({"quick": 12000, "thorough": 150000}[ctx.tier])
     kinds = {}
     for i in range(n):
         opts = dict(OPTS)
